@@ -370,6 +370,14 @@ func basePlans(tier string) []mc.Plan {
 			}
 		}
 	}
+	// cold start: the closer may also strike while the managers' goroutines are still starting
+	for _, soft := range []bool{false, true} {
+		for _, w := range []string{"idle", "unary"} {
+			for _, by := range []string{"conn", "srvctx"} {
+				ps = append(ps, mc.Plan{Scen: scenario(wl.Config{Soft: soft, Pipe: tr.Options{Cap: -1}, Cold: true}, w, by), Bounds: []int{0, 1}})
+			}
+		}
+	}
 	for _, n := range []int{1, 2} {
 		for _, kind := range []string{"echo", "silent"} {
 			for _, stop := range []string{"ctx", "lis", "temp-then-ctx"} {
